@@ -3,10 +3,15 @@ package props
 import (
 	"fmt"
 	"math"
+	"math/rand"
 	"strconv"
 	"strings"
 	"time"
 	"unicode/utf8"
+
+	yae "github.com/goghcrow/yae"
+	"github.com/goghcrow/yae/types"
+	"github.com/goghcrow/yae/val"
 
 	"verif/harness/bridge"
 	"verif/harness/ref"
@@ -15,7 +20,7 @@ import (
 
 // numbers for the sameness property: any two of them are identical or differ
 // by (much) more than the tolerance
-var c18Nums = []float64{0, 1, -1, 2, 0.5, -0.5, 1e-6, 3.75, 255, 1e6, 9007199254740992, 9007199254740994, 4611686018427387904,
+var c18Nums = []float64{0, math.Copysign(0, -1), 1, -1, 2, 0.5, -0.5, 1e-6, 3.75, 255, 1e6, 9007199254740992, 9007199254740994, 4611686018427387904,
 	9223372036854774784, 9223372036854775808, -9223372036854775808, 18446744073709551616, 1e19, 10000000000000002048, 1e20, 1e300, -1e300, math.Inf(1), math.Inf(-1)}
 
 var c18Strs = []string{"", "a", "A", "a ", "q\"uote", "q\\\"uote", "back\\slash", "line\nbreak", "line\\nbreak", "晓", "é", "é", "1", "true", "[1, 2]", "a, b", "{a: 1}", "\x00", "\xff"}
@@ -301,6 +306,73 @@ func evalOn(c *run.Ctx, env *bridge.Env, e *ref.E) (*ref.V, string) {
 	return b.RV, ""
 }
 
+var c18PadSeq int
+var c18PadSizes = []int{3, 31, 62, 63, 64, 65, 127, 200}
+
+// c18Filler: the i-th of a family of values of type t that differ from each
+// other and from everything the pools produce by far more than the tolerance.
+func c18Filler(t *ref.Ty, i int) *ref.V {
+	switch t.K {
+	case ref.KNum:
+		return ref.VNum(700000.25 + float64(i)*3)
+	case ref.KStr:
+		return ref.VStr(fmt.Sprintf("pad-%d", i))
+	case ref.KTime:
+		return ref.VTime(time.Unix(1000000007+int64(i)*86400, 0))
+	case ref.KList:
+		el := c18Filler(t.El, i)
+		if el == nil {
+			return nil
+		}
+		return ref.VList(t.El, el)
+	case ref.KMap:
+		k, v := c18Filler(t.Key, i), c18Filler(t.Val, i)
+		if k == nil || v == nil {
+			return nil
+		}
+		return ref.VMap(t.Key, t.Val, ref.KV{K: k, V: v})
+	case ref.KObj:
+		vs := make([]*ref.V, len(t.Fs))
+		some := false
+		for j, f := range t.Fs {
+			vs[j] = c18Filler(f.T, i)
+			if vs[j] == nil { // e.g. bool: any value will do as long as another field differs
+				vs[j] = c18Zero(f.T)
+				if vs[j] == nil {
+					return nil
+				}
+			} else {
+				some = true
+			}
+		}
+		if !some {
+			return nil
+		}
+		return ref.VObj(t, vs...)
+	case ref.KMaybe:
+		p := c18Filler(t.El, i)
+		if p == nil {
+			return nil
+		}
+		return &ref.V{T: t, P: p}
+	}
+	return nil
+}
+
+func c18Zero(t *ref.Ty) *ref.V {
+	switch t.K {
+	case ref.KBool:
+		return ref.VBool(false)
+	case ref.KMaybe:
+		return &ref.V{T: t}
+	case ref.KList:
+		return ref.VList(t.El)
+	case ref.KMap:
+		return ref.VMap(t.Key, t.Val)
+	}
+	return nil
+}
+
 // checkSameness evaluates the four notions of sameness on (a, b) bound as
 // host data, and as literals when expressible.
 func checkSameness(c *run.Ctx, a, b *ref.V, what string, precondition bool) {
@@ -354,6 +426,38 @@ func checkSameness(c *run.Ctx, a, b *ref.V, what string, precondition bool) {
 	}
 	if un.N != wantU || in.N != wantI || df.N != wantD {
 		c.Violation("eq-vs-set-membership", fmt.Sprintf("[a]==[b] is %v but len(union)=%v len(intersect)=%v len(diff)=%v; %s", E, un.N, in.N, df.N, desc), nil)
+	}
+	// the same question among many other elements (set functions over long lists)
+	c18PadSeq++
+	if size := c18PadSizes[c18PadSeq%len(c18PadSizes)]; c18PadSeq%3 == 0 || a.T.IsPrim() {
+		var pad []*ref.V
+		for i := 0; i < size; i++ {
+			f := c18Filler(a.T, i)
+			if f == nil {
+				pad = nil
+				break
+			}
+			pad = append(pad, f)
+		}
+		if pad != nil {
+			env.Put("pa", ref.VList(a.T, append(pad, a)...))
+			PA := func() *ref.E { return ref.Ident("pa") }
+			un2 := get(ref.Call("len", ref.Call("union", PA(), lb.Clone())))
+			in2 := get(ref.Call("len", ref.Call("intersect", PA(), lb.Clone())))
+			df2 := get(ref.Call("len", ref.Call("diff", PA(), lb.Clone())))
+			un3 := get(ref.Call("len", ref.Call("union", lb.Clone(), PA())))
+			if un2 != nil && in2 != nil && df2 != nil && un3 != nil {
+				c.Count("padded_set_checks", 1)
+				n := float64(size)
+				wU, wI, wD := n+2, 0.0, n+1
+				if E {
+					wU, wI, wD = n+1, 1, n
+				}
+				if un2.N != wU || in2.N != wI || df2.N != wD || un3.N != wU {
+					c.Violation("eq-vs-set-membership", fmt.Sprintf("[a]==[b] is %v but with a at the end of a list of %d other distinct elements: len(union(pa,[b]))=%v len(intersect)=%v len(diff)=%v len(union([b],pa))=%v (expected %v %v %v %v); %s", E, size, un2.N, in2.N, df2.N, un3.N, wU, wI, wD, wU, desc), nil)
+				}
+			}
+		}
 	}
 	if a.T.IsPrim() {
 		is := get(ref.Call("isset", ref.Map([]*ref.E{A.Clone()}, []*ref.E{ref.Num("0", 0)}), B.Clone()))
@@ -480,6 +584,13 @@ func runC18(c *run.Ctx) {
 			})
 		}
 	}
+	// values updated in place through the val API after they were rendered once
+	for i := 0; i < c.Pick(300, 20000); i++ {
+		if !c.Mine(i) {
+			continue
+		}
+		c.Case(fmt.Sprintf("update-after-render/%d", i), func() { updateAfterRender(c, c.Rng("upd", i)) })
+	}
 	// shared sub-values: [xs, xs] renders like [copy, copy]
 	if c.Batch == 0 {
 		c.Case("shared-subvalue", func() {
@@ -499,11 +610,123 @@ func runC18(c *run.Ctx) {
 	}
 }
 
+// updateAfterRender: a host keeps a value, renders it / uses it in a set
+// function, updates a composite nested inside it through the val API and
+// uses it again: rendering, == and set membership must all follow the
+// current content.
+func updateAfterRender(c *run.Ctx, r *rand.Rand) {
+	g := &ref.Gen{R: r}
+	inner := []*ref.Ty{ref.TList(ref.TNum), ref.TObj(ref.F("p", ref.TNum), ref.F("q", ref.TStr)), ref.TMap(ref.TStr, ref.TNum)}[r.Intn(3)]
+	outer := []*ref.Ty{ref.TMap(ref.TStr, inner), ref.TList(inner), ref.TObj(ref.F("f", inner), ref.F("g", ref.TNum)), ref.TMap(ref.TNum, ref.TList(inner)), ref.TList(ref.TMap(ref.TStr, inner))}[r.Intn(5)]
+	mkInner := func(k int) *ref.V {
+		switch inner.K {
+		case ref.KList:
+			return ref.VList(ref.TNum, ref.VNum(float64(k)), ref.VNum(2))
+		case ref.KObj:
+			return ref.VObj(inner, ref.VNum(float64(k)), ref.VStr("s"))
+		}
+		return ref.VMap(ref.TStr, ref.TNum, ref.KV{K: ref.VStr("k"), V: ref.VNum(float64(k))})
+	}
+	// build(k): the outer value whose nested composites carry k
+	var build func(t *ref.Ty, k int) *ref.V
+	build = func(t *ref.Ty, k int) *ref.V {
+		if t == inner {
+			return mkInner(k)
+		}
+		switch t.K {
+		case ref.KMap:
+			if t.Key.K == ref.KNum {
+				return ref.VMap(t.Key, t.Val, ref.KV{K: ref.VNum(1), V: build(t.Val, k)}, ref.KV{K: ref.VNum(2), V: build(t.Val, k)})
+			}
+			return ref.VMap(t.Key, t.Val, ref.KV{K: ref.VStr("x"), V: build(t.Val, k)}, ref.KV{K: ref.VStr("y"), V: build(t.Val, k)})
+		case ref.KList:
+			return ref.VList(t.El, build(t.El, k), build(t.El, k))
+		case ref.KObj:
+			return ref.VObj(t, build(t.Fs[0].T, k), ref.VNum(5))
+		}
+		return g.Value(t, 1)
+	}
+	before, after := build(outer, 1), build(outer, 9)
+	live := bridge.ToVal(before)
+	tenv := types.NewEnv()
+	tenv.Put("a", bridge.ToType(outer))
+	tenv.Put("b", bridge.ToType(outer))
+	ex := yae.NewExpr()
+	progs := []string{"len(union([a], [b]))", "[a] == [b]", "string(a) == string(b)", "len(intersect([a, a], [b]))"}
+	cls := make([]yae.Callable, len(progs))
+	for i, p := range progs {
+		cl, err := ex.Compile(p, tenv)
+		if err != nil {
+			c.Violation("sameness-eval", fmt.Sprintf("%s does not compile for %s: %v", p, outer.Decl(), err), nil)
+			return
+		}
+		cls[i] = cl
+	}
+	use := func(phase string, content *ref.V) bool {
+		c.Count("pairs_checked", 1)
+		fresh := bridge.ToVal(content)
+		venv := val.NewEnv()
+		venv.Put("a", live)
+		venv.Put("b", fresh)
+		if s := live.String(); s != ref.Show(content) {
+			c.Violation("render-vs-reference", fmt.Sprintf("%s: the value renders %q, its content is %q", phase, s, ref.Show(content)), nil)
+			return false
+		}
+		want := []string{"1", "true", "true", "1"}
+		for i, cl := range cls {
+			v, err := cl(venv)
+			if err != nil || v.String() != want[i] {
+				c.Violation("eq-vs-set-membership", fmt.Sprintf("%s: %s with a = the kept value, b = a fresh value of the same content %s gives %v %v, expected %s", phase, progs[i], ref.Show(content), safeStr(v), err, want[i]), nil)
+				return false
+			}
+		}
+		return true
+	}
+	if !use("before the update", before) {
+		return
+	}
+	// update every nested composite in place: k 1 -> 9
+	var upd func(v *val.Val, t *ref.Ty)
+	upd = func(v *val.Val, t *ref.Ty) {
+		if t == inner {
+			switch inner.K {
+			case ref.KList:
+				v.List().Set(0, val.Num(9))
+			case ref.KObj:
+				v.Obj().Put("p", val.Num(9))
+			default:
+				v.Map().Put(val.Str("k"), val.Num(9))
+			}
+			return
+		}
+		switch t.K {
+		case ref.KMap:
+			for _, k := range []*val.Val{val.Num(1), val.Num(2), val.Str("x"), val.Str("y")} {
+				if k.Type.Kind == bridge.ToType(t.Key).Kind {
+					if x, ok := v.Map().Get(k); ok {
+						upd(x, t.Val)
+					}
+				}
+			}
+		case ref.KList:
+			for _, x := range v.List().V {
+				upd(x, t.El)
+			}
+		case ref.KObj:
+			x, _ := v.Obj().Get(t.Fs[0].Name)
+			upd(x, t.Fs[0].T)
+		}
+	}
+	upd(live, outer)
+	c.Distinct(outer.Decl())
+	use("after an in-place update of the nested values", after)
+}
+
 func init() {
 	run.Register(&run.Spec{
 		ID: "C18", Run: runC18, Level: "exploration",
 		Rule: "pairs (a,b) of values of equal type (random types to depth 2: numbers across 2^53 / 2^62 / 2^63 / 2^64 / 1e19 / 1e20 / 1e300 / ±Inf whose pairwise differences are 0 or far above 1e-9, strings needing escapes or looking like renderings, times incl. sub-second, lists, maps, objects, optionals): identical, re-laid-out (permuted object fields, reversed map insertion order, at every depth) or with one leaf changed; all pairs of the number pool and of the string pool; a physically shared sub-value; bound as host data (raw environments with the value's own layout) and, whenever the values have a literal form, written as literals; " +
-			"monitor: [a]==[b] vs [b]==[a] vs != vs [a]==[a]; == <=> equal Val.String() <=> len(union)=1, len(intersect)=1, len(diff)=0 <=> (primitives) isset([a:0],b) and len([a:0,b:1])=1; both renderers equal the reference renderers. distinct = distinct (a,b,layout)",
+			"monitor: [a]==[b] vs [b]==[a] vs != vs [a]==[a]; == <=> equal Val.String() <=> len(union)=1, len(intersect)=1, len(diff)=0 <=> (primitives) isset([a:0],b) and len([a:0,b:1])=1; the same membership questions with a appended to 3..200 other distinct elements (sizes around 64 and 128); both renderers equal the reference renderers; values kept by the host, rendered / used in set functions, updated in place below the top level through the val API (ListVal.Set, ObjVal.Put, MapVal.Put) and used again must follow their current content. distinct = distinct (a,b,layout)",
 		Assume:    []string{"precondition of the property is built into the pools (no two numbers closer than the tolerance unless identical)", "NaN and equal instants in different time.Location are recorded known findings"},
 		MinEvents: 3000, EventKey: "pairs_checked",
 	})
